@@ -71,6 +71,14 @@ def run_history(history, seed):
             r = E.run_client(e, client=cl, **a)
             out.append(P.digest(r["tables"]) if "tables" in r else "raises:" + r["raises"])
             last = h[1]
+        elif h[0] == "other":
+            # another election's run on the same client under the same election id (its own configuration, office, baseline):
+            # whatever it leaves behind on the client must not reach the calls that follow
+            rng2 = random.Random(seed + 7919)
+            e2 = E.gen_election(rng2, size="small", district=True, roles=["reporting"] * 6 + ["partial"] * 2, min_reporting=10)
+            r = E.run_client(e2, client=cl, pi_method="nonparametric", estimands=["turnout"], alphas=[0.5], features=[],
+                             aggregates=["postal_code", "unit"])
+            out.append("other:" + (P.digest(r["tables"]) if "tables" in r else "raises:" + r["raises"]))
         elif h[0] == "fresh":
             a = sets[h[1]]
             r = E.run_client(e, **a)
@@ -89,7 +97,7 @@ def run_history(history, seed):
     return out
 
 
-def gen_history(rng):
+def gen_history(rng, other=None):
     keys = rng.sample(["np", "ga", "bo", "bo2"], rng.choice([2, 3]))
     h = []
     for _ in range(rng.randint(3, 6)):
@@ -97,6 +105,9 @@ def gen_history(rng):
         h.append(["est", k])
         if k in ("bo", "bo2") and rng.random() < 0.7:
             h.append(["nat", rng.choice(["none", "dict"]), rng.choice([1, 2, 3])])
+    # another election on the same client in between (half of the histories)
+    if (rng.random() < 0.5) if other is None else other:
+        h.insert(rng.randint(0, max(0, len(h) - 1)), ["other"])
     # make sure something repeats, and add fresh-client references
     h.append(["est", keys[0]])
     if keys[0] in ("bo", "bo2"):
@@ -111,6 +122,8 @@ def check_history(run, case, history, digests, where):
     last_est = None
     nat_seen = {}
     for h, d in zip(history, digests):
+        if h[0] == "other":
+            continue
         if h[0] in ("est", "fresh"):
             k = h[1]
             if k in seen and seen[k] != d:
@@ -220,9 +233,9 @@ def explore(run, driver, budget):
     natsum_repeat_stage(run, {"quick": 150, "thorough": 5000, "search": 1000}[budget])
     if driver is not None:
         run.info["randomness_sources"] = driver.run([{"op": "det.sites"}])[0]
-    for _ in range(n):
+    for k in range(n):
         seed = rng.randint(0, 10**6)
-        history = gen_history(rng)
+        history = gen_history(rng, other=(k % 2 == 0))
         case = {"election_seed": seed, "history": history}
         run.case(case, True)
         run.count("histories")
